@@ -100,9 +100,9 @@ def go_fields(repo):
     return fields, init
 
 
-def run(repo, tier, out):
+def run(repo, tier, out, prop="C10"):
     L = 2 if tier == "quick" else 3
-    h = Harness("C10_hash_framing")
+    h = Harness(prop + "_hash_framing")
     fns = plpgsql.resolve_functions(repo)
     T, D, DATE, IK, SV = z3.String("type"), z3.String("data_text"), z3.String("date_text"), z3.String("idempotency_key"), z3.String("schema_version")
     safe = z3.Star(z3.Union(z3.Range("a", "z"), z3.Range("A", "Z"), z3.Range("0", "9"), z3.Re(z3.StringVal("_")), z3.Re(z3.StringVal("-"))))
@@ -157,8 +157,12 @@ def run(repo, tier, out):
         if tail:
             s = z3.Concat(s, z3.StringVal("}"))
         return s
-    for name, rowvar, label in (("set_log_hash", "new", "C10:the-insert-trigger-hashes-the-text-ComputeHash-hashes"),
-                                ("compute_hash", "r", "C10:compute_hash-hashes-the-text-ComputeHash-hashes")):
+    labels = (("set_log_hash", "new", "C10:the-insert-trigger-hashes-the-text-ComputeHash-hashes"), ("compute_hash", "r", "C10:compute_hash-hashes-the-text-ComputeHash-hashes"))
+    if prop == "C09":
+        # the same obligation read as C09's last clause: recomputing a stored hash with Log.ComputeHash (what ChainLog / import do) reproduces it
+        labels = (("set_log_hash", "new", "C09:recomputing-with-ComputeHash-reproduces-the-hash-stored-by-the-insert-trigger"),
+                  ("compute_hash", "r", "C09:recomputing-with-ComputeHash-reproduces-the-documented-sql-hash-compute_hash"))
+    for name, rowvar, label in labels:
         if name not in fns:
             h.inconclusive.append(f"{name} not found in the migrations")
             continue
@@ -181,5 +185,6 @@ if __name__ == "__main__":
     import argparse
     ap = argparse.ArgumentParser()
     ap.add_argument("--repo", default="/repo"); ap.add_argument("--tier", default="quick"); ap.add_argument("--out", required=True)
+    ap.add_argument("--prop", default="C10")
     a = ap.parse_args()
-    run(a.repo, a.tier, a.out)
+    run(a.repo, a.tier, a.out, a.prop)
